@@ -8,7 +8,6 @@ import (
 	"math/rand"
 	"os"
 	"os/exec"
-	"path/filepath"
 	"regexp"
 	"sort"
 	"strconv"
@@ -913,7 +912,7 @@ func runSet(oc *fw.Outcome, s resSet) {
 // (Remote.*) item is a violation; diagnostics about the user's own VCL are not.
 func runCLI(oc *fw.Outcome, s resSet) {
 	oc.Evals++
-	cmd := exec.Command(filepath.Join(fw.Verif, ".build", "falco"), "terraform", "-vv")
+	cmd := exec.Command(fw.FalcoBin(), "terraform", "-vv")
 	cmd.Stdin = bytes.NewReader(planJSON(s))
 	cmd.Env = []string{"HOME=/nonexistent", "PATH=/usr/bin:/bin", "TERM=xterm", "NO_COLOR=1"}
 	var out bytes.Buffer
